@@ -1116,6 +1116,10 @@ class Envelope:
             # Given arguments 0,0 don't have an effect
             operation.compute_dimensions([0], jnp.array([0]))
 
+        # einsum would silently broadcast an operator with axes of length one
+        if operation.operator.shape != (states[0].dimensions, states[0].dimensions):
+            raise ValueError("Operator dimensions do not match the state dimensions")
+
         reshape_shape = [-1, -1]
         assert isinstance(self.fock.index, int)
         assert isinstance(self.fock.dimensions, int)
